@@ -470,9 +470,13 @@ fn merge_seq(ctx: &mut Ctx, ds: &[Pset], seq: &[usize], tree: bool) -> Option<Re
         let mut acc = ds[seq[0]].clone();
         for k in &seq[1..] {
             let other = ds[*k].clone();
-            match ctx.call("Pset::merge", 0, || acc.merge(other))? {
-                Ok(()) => {}
-                Err(e) => return Some(Err(format!("{:?}", e))),
+            match ctx.call("Pset::merge", 0, || acc.merge(other)) {
+                Some(Ok(())) => {}
+                Some(Err(e)) => return Some(Err(format!("{:?}", e))),
+                None => {
+                    ctx.violate("C14.ok", "panic", "merge panicked".to_string());
+                    return None;
+                }
             }
         }
         Some(Ok(acc))
@@ -481,9 +485,13 @@ fn merge_seq(ctx: &mut Ctx, ds: &[Pset], seq: &[usize], tree: bool) -> Option<Re
         let l = merge_seq(ctx, ds, &seq[..mid], tree)?;
         let r = merge_seq(ctx, ds, &seq[mid..], tree)?;
         match (l, r) {
-            (Ok(mut a), Ok(b)) => match ctx.call("Pset::merge", 0, || a.merge(b))? {
-                Ok(()) => Some(Ok(a)),
-                Err(e) => Some(Err(format!("{:?}", e))),
+            (Ok(mut a), Ok(b)) => match ctx.call("Pset::merge", 0, || a.merge(b)) {
+                Some(Ok(())) => Some(Ok(a)),
+                Some(Err(e)) => Some(Err(format!("{:?}", e))),
+                None => {
+                    ctx.violate("C14.ok", "panic", "merge panicked".to_string());
+                    None
+                }
             },
             (Err(e), _) | (_, Err(e)) => Some(Err(e)),
         }
@@ -554,8 +562,22 @@ pub fn execute(case: &MergeCase, ctx: &mut Ctx) {
     let id0 = match ctx.call("Pset::unique_id", 0, || ancestor.unique_id()) {
         Some(Ok(id)) => id,
         _ => {
-            // e.g. a lock-time conflict among the generated inputs: there is no "same transaction" to speak of
+            // e.g. a lock-time conflict among the generated inputs: there is no "same transaction" to speak of.
+            // Merging must still be total: operands whose ids both fail, of equal or different shape, in both
+            // directions (nothing is asserted about the outcome except that it is not a panic).
             ctx.probe("ancestor_without_unique_id");
+            ctx.nontrivial = true;
+            let mut longer = ancestor.clone();
+            let mut q = Prng::from_u64(case.seed);
+            longer.add_input(psetgen::input(&mut q, &case.base));
+            longer.add_output(psetgen::output(&mut q, &case.base, 1));
+            for (x, y) in [(&ancestor, &longer), (&longer, &ancestor), (&ancestor, &ancestor)] {
+                let mut m = x.clone();
+                let o = y.clone();
+                if ctx.call("Pset::merge", 0, || m.merge(o).is_ok()).is_none() {
+                    ctx.violate("C14.ok", "panic", "merge of PSETs without a unique id panicked".to_string());
+                }
+            }
             return;
         }
     };
@@ -634,6 +656,23 @@ pub fn execute(case: &MergeCase, ctx: &mut Ctx) {
     }
     // ---- a PSET describing another transaction is refused
     if case.refuse {
+        // ... also when it has another shape (more inputs / outputs), in both directions
+        let mut longer = ancestor.clone();
+        let mut q = Prng::from_u64(case.seed ^ 0x10);
+        let mut extra = psetgen::input(&mut q, &case.base);
+        extra.required_time_locktime = None;
+        extra.required_height_locktime = None;
+        longer.add_input(extra);
+        for (x, y) in [(&ancestor, &longer), (&longer, &ancestor)] {
+            let mut a = x.clone();
+            let o = y.clone();
+            match ctx.call("Pset::merge", 0, || a.merge(o)) {
+                Some(r) => {
+                    ctx.check(r.is_err(), "C14.refuse", "other-shape-accepted", || "merging a PSET with a different number of inputs returned Ok".to_string());
+                }
+                None => ctx.violate("C14.ok", "panic", "merge of PSETs of different shape panicked".to_string()),
+            }
+        }
         let mut other = ancestor.clone();
         other.inputs_mut()[0].previous_output_index = other.inputs()[0].previous_output_index.wrapping_add(1) & 0x3fff_ffff;
         if let Some(Ok(id1)) = ctx.call("Pset::unique_id", 0, || other.unique_id()) {
